@@ -1,8 +1,10 @@
 // C09 (inputs / configurations / life-cycle histories, single logging thread): text lengths and alphabets around the limits,
 // degenerate arguments, level/module filters, enable/disable/re-enable histories on two sinks with different thresholds,
 // file sink roll-over / re-enable / destruction / options under a virtual wall clock, stdout sinks across changes of second.
-// usage: input_harness <len|filter|file|stdout|filterseq|lifecycle> [workdir|depth [part nparts]]
+// usage: input_harness <len|filter|file|stdout> [workdir] | filterseq <depth> [part nparts] | lifecycle <depth> [part nparts [alphabet]]
 #include "hist/hist.h"
+#include "probe.h"
+#include <tbox/base/log_output.h>
 #include <tbox/base/log.h>
 #include <tbox/base/log_impl.h>
 #include <tbox/log/sink.h>
@@ -29,9 +31,17 @@ struct AsyncRec : AsyncSink { std::string out; void endline() override { cache_.
 static size_t N = 0, D = 0;
 static const long long BASE_SEC = 1700000000;
 static long my_tid() { return syscall(SYS_gettid); }
-static std::string ts_str(long long sec) { time_t t = sec; struct tm tm; localtime_r(&t, &tm); char b[32]; strftime(b, sizeof b, "%F %H:%M:%S", &tm); return b; }
+// The process runs in the artificial zone "VFT-05:30" (set first thing in main; POSIX form, no tzdata needed) and the expected local time is
+// computed WITHOUT localtime_r, as UTC + 5 h 30 min, so an implementation that formats UTC (gmtime_r) no longer agrees with the oracle by accident.
+static const long TZ_OFFSET_S = 19800;
+static std::string ts_str(long long sec) { time_t t = sec + TZ_OFFSET_S; struct tm tm; gmtime_r(&t, &tm); char b[32]; strftime(b, sizeof b, "%F %H:%M:%S", &tm); return b; }
+// level codes and colours as documented (log_impl.cpp tables), spelled out here so that a shifted table entry changes the code's output but not the oracle
+static const char LEVEL_CODE[] = "FEWNIIDT";
+static const char *COLOR_CODE[8] = {"7;91", "31", "7;93", "93", "7;92", "32", "36", "35"};
+// private members that only feed canonical state keys (never the oracle): read through probes so that a rename does not break the build
+VF_PROBE(default_level_) VF_PROBE(modules_level_) VF_PROBE(output_id_) VF_PROBE(is_pipe_inited_)
 // the documented record head of the asynchronous / stdout sinks: "<level code> <date time>.<usec> <tid> <module> " for a call made at virtual second `sec`
-static std::string line_head(int level, long long sec, const char *module) { char b[192]; snprintf(b, sizeof b, "%c %s.%06u %ld %s ", LOG_LEVEL_LEVEL_CODE[level], ts_str(sec).c_str(), 42u, my_tid(), module); return b; }
+static std::string line_head(int level, long long sec, const char *module) { char b[192]; snprintf(b, sizeof b, "%c %s.%06u %ld ", LEVEL_CODE[level], ts_str(sec).c_str(), 42u, my_tid()); return std::string(b) + module + " "; }
 static std::string first_diff(const std::string &got, const std::string &want) {      // classify got vs want at line granularity
   size_t a = 0, b = 0; int ln = 0;
   while (a < got.size() || b < want.size()) { ln++;
@@ -44,17 +54,12 @@ static std::string first_diff(const std::string &got, const std::string &want) {
 }
 
 static int sweep_len() {
-  for (size_t max : {1ul, 10ul, 2047ul, 2048ul, 2049ul, 4096ul}) {
-    size_t old = LogSetMaxLength(max); (void)old;
-    std::vector<size_t> lens; for (size_t l = 0; l <= 8; l++) lens.push_back(l); for (size_t l = 2046; l <= 2050; l++) lens.push_back(l);
-    for (size_t l : {max - 1, max, max + 1, max + 7}) lens.push_back(l);
-    std::sort(lens.begin(), lens.end()); lens.erase(std::unique(lens.begin(), lens.end()), lens.end());
-    // alphabet 0 = letters; 1 = text made of printf conversions ("%s%d%%%n..."): whether it is the literal message (puts path)
-    // or the %s argument, the record must carry exactly these bytes - nothing may be interpreted a second time
-    for (size_t L : lens) for (int alpha = 0; alpha < 2; alpha++) for (int with_args = 0; with_args < 3; with_args++) {
+  // alphabet 0 = letters; 1 = text made of printf conversions ("%s%d%%%n..."): whether it is the literal message (puts path)
+  // or the %s argument, the record must carry exactly these bytes - nothing may be interpreted a second time
+  auto one_case = [&](size_t max, size_t L, int alpha, int with_args) {
       static const char PCT[] = "%s%d%%%n%5c%ld";
       std::string text(L, 'x'); for (size_t i = 0; i < L; i++) text[i] = alpha ? PCT[i % (sizeof PCT - 1)] : (char)('a' + i % 26);
-      if (with_args == 2 && L < 2) continue;
+      if (with_args == 2 && L < 2) return;
       SyncRec s; AsyncRec a; AsyncSink::Config cfg; cfg.buff_size = 64; cfg.buff_min_num = 1; cfg.buff_max_num = 3; cfg.interval = 100; a.setConfig(cfg);
       s.setLevel(LOG_LEVEL_TRACE); a.setLevel(LOG_LEVEL_TRACE); s.enable(); a.enable();
       char desc[128]; snprintf(desc, sizeof desc, "max=%zu len=%zu alphabet=%s mode=%s", max, L, alpha ? "percent-conversions" : "letters", with_args == 0 ? "puts" : with_args == 1 ? "printf-%s" : "printf-prefix+%s");
@@ -65,7 +70,7 @@ static int sweep_len() {
       else LogPrintfFunc("mod", "fn", "dir/f.cpp", 7, LOG_LEVEL_INFO, 1, "%c%s", text[0], text.c_str() + 1);
       s.disable(); a.disable(); N++;
       size_t el = std::min(L, max); bool et = L > max;
-      if (s.recs.size() != 1) { printf("@VIOL sig=len-sweep-record-count-%zu :: %s\n", s.recs.size(), desc); continue; }
+      if (s.recs.size() != 1) { printf("@VIOL sig=len-sweep-record-count-%zu :: %s\n", s.recs.size(), desc); return; }
       const Rec &r = s.recs[0];
       if (r.len != el || r.text != want.substr(0, el)) printf("@VIOL sig=text-not-cut-to-exactly-the-maximum%s :: %s got_len=%u want_len=%zu\n", alpha ? "-or-bytes-changed(percent-text)" : "", desc, r.len, el);
       else if (r.trunc != et) printf("@VIOL sig=truncation-flag-wrong :: %s flag=%d\n", desc, (int)r.trunc);
@@ -74,53 +79,67 @@ static int sweep_len() {
       std::string exp = line_head(LOG_LEVEL_INFO, vsec, "mod") + "fn() " + (el ? want.substr(0, el) + " " : std::string()) + (et && el ? "(TRUNCATED) " : "") + "-- f.cpp:7\n";
       if (a.out != exp) printf("@VIOL sig=async-sink-line-wrong(len-sweep) :: %s %s\n", desc, first_diff(a.out, exp).c_str());
       if (N <= 2) printf("@SAMPLE %s => text_len=%u trunc=%d\n", desc, r.len, (int)r.trunc);
-    }
+  };
+  for (size_t max : {1ul, 10ul, 2047ul, 2048ul, 2049ul, 4096ul}) {
+    size_t old = LogSetMaxLength(max); (void)old;
+    std::vector<size_t> lens; for (size_t l = 0; l <= 8; l++) lens.push_back(l); for (size_t l = 2046; l <= 2050; l++) lens.push_back(l);
+    for (size_t l : {max - 1, max, max + 1, max + 7}) lens.push_back(l);
+    std::sort(lens.begin(), lens.end()); lens.erase(std::unique(lens.begin(), lens.end()), lens.end());
+    for (size_t L : lens) for (int alpha = 0; alpha < 2; alpha++) for (int with_args = 0; with_args < 3; with_args++) one_case(max, L, alpha, with_args);
   }
+  // the DEFAULT maximum (100 KiB, never changed by most programs) with texts around the 8 KiB, 64 KiB (16-bit length) and 100 KiB marks
+  { const size_t dflt = 100 << 10; LogSetMaxLength(dflt);
+    for (size_t L : {8191ul, 8192ul, 65535ul, 65536ul, dflt - 1, dflt, dflt + 1}) for (int with_args = 0; with_args < 3; with_args++) one_case(dflt, L, 0, with_args); }
   LogSetMaxLength(100 << 10);
-  // degenerate arguments: no message at all (fmt == NULL), no module name, no function name, no file name, level outside 0..7.
+  // degenerate and extreme arguments: no message at all (fmt == NULL), no module name, no function name, no file name, level outside 0..7,
+  // and LONG names (template / lambda __func__ of 63..300 characters, a 64-character module, a 200-character file behind a 1500-character directory).
   // Reading: such a call is still ONE log call; the record it produces must be whole (every field a sink prints is readable and the
   // fields that were given are intact). What an absent module is spelled as is not stated, so only "non-empty" is demanded; a level
   // below 0 passes every threshold under any reading (exactly one record), a level above 7 may or may not pass threshold 7 (at most one).
-  struct Deg { const char *what, *mod, *fn, *file, *fmt; int level; int min_recs, max_recs; };
-  static const Deg DEG[] = {
+  struct Deg { std::string what; const char *mod, *fn, *file, *fmt; int level; int min_recs, max_recs; };
+  static std::string long_fn[5], long_mod(64, 'M'), long_file = std::string(1500, 'd') + "/sub/" + std::string(196, 'F') + ".cpp";
+  std::vector<Deg> DEG = {
     {"fmt=NULL", "mod", "fn", "dir/f.cpp", nullptr, LOG_LEVEL_INFO, 1, 1}, {"module=NULL", nullptr, "fn", "dir/f.cpp", "t", LOG_LEVEL_INFO, 1, 1},
     {"func=NULL", "mod", nullptr, "dir/f.cpp", "t", LOG_LEVEL_INFO, 1, 1}, {"file=NULL", "mod", "fn", nullptr, "t", LOG_LEVEL_INFO, 1, 1},
     {"file-without-directory", "mod", "fn", "f.cpp", "t", LOG_LEVEL_INFO, 1, 1}, {"file-ends-with-slash", "mod", "fn", "dir/", "t", LOG_LEVEL_INFO, 1, 1},
     {"level=-1", "mod", "fn", "dir/f.cpp", "t", -1, 1, 1}, {"level=-1000", "mod", "fn", "dir/f.cpp", "t", -1000, 1, 1},
-    {"level=8", "mod", "fn", "dir/f.cpp", "t", 8, 0, 1}, {"level=1000", "mod", "fn", "dir/f.cpp", "t", 1000, 0, 1} };
+    {"level=8", "mod", "fn", "dir/f.cpp", "t", 8, 0, 1}, {"level=1000", "mod", "fn", "dir/f.cpp", "t", 1000, 0, 1},
+    {"module-name-of-64-chars", long_mod.c_str(), "fn", "dir/f.cpp", "t", LOG_LEVEL_INFO, 1, 1}, {"file-name-of-200-chars-behind-a-1500-char-directory", "mod", "fn", long_file.c_str(), "t", LOG_LEVEL_INFO, 1, 1} };
+  { int i = 0; for (size_t n : {63ul, 64ul, 65ul, 255ul, 300ul}) { long_fn[i] = std::string(n, 'x'); for (size_t j = 0; j < n; j++) long_fn[i][j] = "Tmpl<ab>::op_"[j % 13]; DEG.push_back({"function-name-of-" + std::to_string(n) + "-chars", "mod", long_fn[i].c_str(), "dir/f.cpp", "t", LOG_LEVEL_INFO, 1, 1}); i++; } }
   for (const Deg &d : DEG) for (int with_args = 0; with_args < 2; with_args++) {
     SyncRec s; AsyncRec a; AsyncSink::Config cfg; cfg.buff_size = 64; cfg.buff_min_num = 1; cfg.buff_max_num = 3; cfg.interval = 100; a.setConfig(cfg);
     s.setLevel(LOG_LEVEL_TRACE); a.setLevel(LOG_LEVEL_TRACE); s.enable(); a.enable();
-    char desc[128]; snprintf(desc, sizeof desc, "degenerate %s with_args=%d", d.what, with_args); hx::set_current(desc);
+    char desc[160]; snprintf(desc, sizeof desc, "degenerate %s with_args=%d", d.what.c_str(), with_args); hx::set_current(desc);
     LogPrintfFunc(d.mod, d.fn, d.file, 7, d.level, with_args, d.fmt);
     s.disable(); a.disable(); N++;
     size_t nl = std::count(a.out.begin(), a.out.end(), '\n');
-    if (s.recs.size() < (size_t)d.min_recs || s.recs.size() > (size_t)d.max_recs || nl != s.recs.size()) { printf("@VIOL sig=degenerate-argument-call-record-count-wrong(%s) :: %s sync=%zu async=%zu\n", d.what, desc, s.recs.size(), nl); continue; }
+    if (s.recs.size() < (size_t)d.min_recs || s.recs.size() > (size_t)d.max_recs || nl != s.recs.size()) { printf("@VIOL sig=degenerate-argument-call-record-count-wrong(%s) :: %s sync=%zu async=%zu\n", d.what.c_str(), desc, s.recs.size(), nl); continue; }
     if (s.recs.empty()) continue;
-    const Rec &r = s.recs[0]; std::string text = d.fmt ? d.fmt : "", file = !d.file ? "<null>" : !strcmp(d.file, "dir/") ? "" : "f.cpp";
+    const Rec &r = s.recs[0]; std::string text = d.fmt ? d.fmt : "", file = "<null>"; if (d.file) { file = d.file; size_t p = file.rfind('/'); if (p != std::string::npos) file = file.substr(p + 1); }
     bool ok = r.level >= 0 && r.level < LOG_LEVEL_MAX && (d.level < 0 || d.level >= LOG_LEVEL_MAX || r.level == d.level) && (d.mod ? r.module == d.mod : (!r.module.empty() && r.module != "<null>")) && r.func == (d.fn ? d.fn : "<null>") && r.file == file && r.line == 7 && r.text == text && !r.trunc && r.sec == (uint32_t)vsec && r.usec == 42 && r.tid == my_tid();
-    if (!ok) { printf("@VIOL sig=degenerate-argument-call-record-field-corrupted(%s) :: %s\n", d.what, desc); continue; }
-    std::string exp = line_head(r.level, vsec, r.module.c_str()) + (d.fn ? "fn() " : "") + (text.empty() ? "" : text + " ") + (d.file ? "-- " + file + ":7" : std::string()) + "\n";
-    if (a.out != exp) printf("@VIOL sig=async-sink-line-wrong(degenerate-%s) :: %s %s\n", d.what, desc, first_diff(a.out, exp).c_str());
+    if (!ok) { printf("@VIOL sig=degenerate-argument-call-record-field-corrupted(%s) :: %s\n", d.what.c_str(), desc); continue; }
+    std::string exp = line_head(r.level, vsec, r.module.c_str()) + (d.fn ? std::string(d.fn) + "() " : "") + (text.empty() ? "" : text + " ") + (d.file ? "-- " + file + ":7" : std::string()) + "\n";
+    if (a.out != exp) printf("@VIOL sig=async-sink-line-wrong(degenerate-%s) :: %s %s\n", d.what.c_str(), desc, first_diff(a.out, exp).c_str());
   }
   D = N; return 0;
 }
 
 static int sweep_filter() {
   // default threshold g in 0..7 (set with setLevel(g), or with setLevel("", g) in the variant `via_empty`), per-module threshold for "A" in
-  // {unset,0..7}, set-then-unset variant, log from module A and B at every level
-  for (int g = 0; g < LOG_LEVEL_MAX; g++) for (int pm = -1; pm < LOG_LEVEL_MAX; pm++) for (int unset = 0; unset < 2; unset++) for (int via_empty = 0; via_empty < 2; via_empty++) for (int m = 0; m < 2; m++) for (int lv = 0; lv < LOG_LEVEL_MAX; lv++) {
+  // {unset,0..7}, set-then-unset variant, log from module A, from B and from AB (a name that only EXTENDS the configured one: thresholds match whole names) at every level
+  static const char *SRC[3] = {"A", "B", "AB"};
+  for (int g = 0; g < LOG_LEVEL_MAX; g++) for (int pm = -1; pm < LOG_LEVEL_MAX; pm++) for (int unset = 0; unset < 2; unset++) for (int via_empty = 0; via_empty < 2; via_empty++) for (int m = 0; m < 3; m++) for (int lv = 0; lv < LOG_LEVEL_MAX; lv++) {
     if (unset && pm < 0) continue;
     if (via_empty && !(pm < 0 || pm == 3)) continue;
     SyncRec s; AsyncRec a; AsyncSink::Config cfg; cfg.buff_size = 128; cfg.buff_min_num = 1; cfg.buff_max_num = 2; cfg.interval = 100; a.setConfig(cfg);
     for (Sink *k : {(Sink *)&s, (Sink *)&a}) { if (via_empty) { k->setLevel(7 - g); if (pm >= 0) k->setLevel("A", pm); k->setLevel("", g); } else { k->setLevel(g); if (pm >= 0) k->setLevel("A", pm); } if (unset) k->unsetLevel("A"); k->enable(); }
-    char desc[128]; snprintf(desc, sizeof desc, "default=%d%s module-A=%d%s from=%s level=%d", g, via_empty ? "(set through the empty module name)" : "", pm, unset ? "(then unset)" : "", m ? "B" : "A", lv); hx::set_current(desc);
-    LogPrintfFunc(m ? "B" : "A", "fn", "f.cpp", 1, lv, 0, "t");
+    char desc[128]; snprintf(desc, sizeof desc, "default=%d%s module-A=%d%s from=%s level=%d", g, via_empty ? "(set through the empty module name)" : "", pm, unset ? "(then unset)" : "", SRC[m], lv); hx::set_current(desc);
+    LogPrintfFunc(SRC[m], "fn", "f.cpp", 1, lv, 0, "t");
     s.disable(); a.disable(); N++;
     int thr = (m == 0 && pm >= 0 && !unset) ? pm : g; size_t want = lv <= thr ? 1 : 0;
-    std::string exp = want ? line_head(lv, vsec, m ? "B" : "A") + "fn() t -- f.cpp:1\n" : std::string();
+    std::string exp = want ? line_head(lv, vsec, SRC[m]) + "fn() t -- f.cpp:1\n" : std::string();
     if (s.recs.size() != want) printf("@VIOL sig=filter-sync-sink-delivered-%zu-expected-%zu :: %s\n", s.recs.size(), want, desc);
-    else if (want && (s.recs[0].level != lv || s.recs[0].module != (m ? "B" : "A") || s.recs[0].text != "t")) printf("@VIOL sig=filter-sync-sink-record-field-corrupted :: %s\n", desc);
+    else if (want && (s.recs[0].level != lv || s.recs[0].module != (SRC[m]) || s.recs[0].text != "t")) printf("@VIOL sig=filter-sync-sink-record-field-corrupted :: %s\n", desc);
     if (a.out != exp) printf("@VIOL sig=filter-async-sink-delivered-%zu-expected-%zu :: %s %s\n", (size_t)std::count(a.out.begin(), a.out.end(), '\n'), want, desc, first_diff(a.out, exp).c_str());
     if (N % 400 == 1) printf("@SAMPLE %s => delivered=%zu\n", desc, s.recs.size());
   }
@@ -132,62 +151,76 @@ static std::vector<std::string> list_files(const std::string &dir) {     // in c
   auto key = [](const std::string &n) { size_t p = n.rfind(".log"); std::string base = n.substr(0, p); int post = 0; if (p + 4 < n.size()) post = atoi(n.c_str() + p + 5); return std::make_pair(base, post); };
   std::sort(v.begin(), v.end(), [&](const std::string &a, const std::string &b) { return key(a) < key(b); }); return v;
 }
-static void rm_dir(const std::string &dir) { DIR *d = opendir(dir.c_str()); if (d) { while (auto *e = readdir(d)) { std::string n = e->d_name; if (n != "." && n != "..") unlink((dir + "/" + n).c_str()); } closedir(d); } rmdir(dir.c_str()); }
 static std::string read_files(const std::string &dir, bool &split, size_t &files) {
   std::string all; split = false; files = 0;
   for (auto &f : list_files(dir)) { std::ifstream in(dir + "/" + f); std::stringstream ss; ss << in.rdbuf(); std::string c = ss.str(); files++; if (!c.empty() && c.back() != '\n') split = true; all += c; }
   return all;
 }
+static void rm_tree(const std::string &dir) { DIR *d = opendir(dir.c_str()); if (d) { while (auto *e = readdir(d)) { std::string n = e->d_name; if (n == "." || n == "..") continue; std::string p = dir + "/" + n; struct stat sb; if (lstat(p.c_str(), &sb) == 0 && S_ISDIR(sb.st_mode)) rm_tree(p); else unlink(p.c_str()); } closedir(d); } rmdir(dir.c_str()); }
 static int sweep_file(const std::string &work) {
   // one record is "I 2023-.. .000042 <tid> mod fn() rec-<k>-pad -- f.cpp:<k>\n"; measure its size first.
-  // Dimensions: size limit x record count x pacing x life-cycle {log,disable | log,disable,(log while disabled),enable,log,disable on the SAME object |
-  // log, then the sink is destroyed while still enabled} x pipe buffers {default 10 KiB | 64 bytes: a record spans several hand-overs, so a roll-over
-  // happens while the back-end holds a partial frame} x O_DSYNC {off,on} x spelling of the directory {dir, dir/, " dir "}.
+  // Dimensions: size limit x record count (1..6, and 12 with limit 1: numeric postfixes .1 .. .11 in one second) x pacing x life-cycle {log,disable |
+  // log,disable,(log while disabled),enable,log,disable on the SAME object | log, then the sink is destroyed while still enabled | as the second, with
+  // setFilePath(other directory) and setFileSyncEnable(flipped) called while disabled: period-1 records in the first directory, period-2 records in the
+  // second} x pipe buffers {default 10 KiB | 64 bytes: a record spans several hand-overs, so a roll-over happens while the back-end holds a partial frame}
+  // x O_DSYNC {off,on}; rotated over the cases (not crossed): spelling of the directory {dir, dir/, " dir "} and state of the directory at enable()
+  // {exists, absent, absent two levels deep}.
   // Oracle: every WHOLE line (level code, time of the call under the virtual clock, usec, thread id, module, function, text, file:line), files
   // concatenated in creation order == the records logged while enabled, in order; no file ends inside a record.
   size_t recsz = 0;
   for (int pass = 0; pass < 2; pass++) {
     std::vector<size_t> limits = pass == 0 ? std::vector<size_t>{1u << 20} : std::vector<size_t>{1, recsz - 1, recsz, recsz + 1, 3 * recsz};
     bool quick = getenv("VERIF_TIER") && !strcmp(getenv("VERIF_TIER"), "quick");
-    for (size_t limit : limits) for (int nrec = 1; nrec <= 6; nrec++) for (int pace = 0; pace < 3; pace++) for (int v = 0; v < 12; v++) {
+    for (size_t limit : limits) for (int nrec : {1, 2, 3, 4, 5, 6, 12}) for (int pace = 0; pace < 3; pace++) for (int v = 0; v < 16; v++) {
+      if (nrec == 12 && (limit != 1 || pace != 0)) continue;
       if (quick && pace > 0 && nrec > (pace == 1 ? 3 : 2)) continue;      // the paced (sleeping) cases are the slow ones      // pace: 0 = all in one burst, 1 = wait for the flush after each record, 2 = same + clock moves 1 s per record
-      const int life = v % 3, small = (v / 3) % 2, sync = v / 6;
+      const int life = v % 4, small = (v / 4) % 2, sync = v / 8;
       if (pace > 0 && (small || sync || (life && (quick || nrec > 3)))) continue;        // the option cross runs on the burst shape; paced runs keep default options
-      if (pass == 0 && recsz == 0 && v > 0) continue;
-      const int sp = (int)(N % 3);
-      std::string dir = work + "/f" + std::to_string(N); rm_dir(dir); mkdir(dir.c_str(), 0700);
-      vsec = BASE_SEC; std::string want;
-      char desc[192]; snprintf(desc, sizeof desc, "limit=%zu records=%d pace=%d life=%s buffers=%s dsync=%d path-spelling=%s", limit, nrec, pace, life == 0 ? "log,disable" : life == 1 ? "log,disable,enable,log,disable" : "log,destroyed-while-enabled", small ? "64B" : "default", sync, sp == 0 ? "dir" : sp == 1 ? "dir/" : "' dir '"); hx::set_current(desc);
+      const int sp = (int)(N % 3), dx = (int)((N / 3) % 3);
+      std::string base = work + "/f" + std::to_string(N), dir = dx == 2 ? base + "/a/b" : base, dir2 = base + "_second/x"; rm_tree(base); rm_tree(base + "_second"); if (dx == 0) mkdir(dir.c_str(), 0700);
+      vsec = BASE_SEC; std::string want, want1;
+      char desc[256]; snprintf(desc, sizeof desc, "limit=%zu records=%d pace=%d life=%s buffers=%s dsync=%d path-spelling=%s directory=%s", limit, nrec, pace, life == 0 ? "log,disable" : life == 1 ? "log,disable,enable,log,disable" : life == 2 ? "log,destroyed-while-enabled" : "log,disable,setFilePath(other),setFileSyncEnable(flipped),enable,log,disable", small ? "64B" : "default", sync, sp == 0 ? "dir" : sp == 1 ? "dir/" : "' dir '", dx == 0 ? "exists" : dx == 1 ? "absent" : "absent-two-levels-deep"); hx::set_current(desc);
       std::unique_ptr<AsyncFileSink> fs(new AsyncFileSink);
       fs->setFilePath(sp == 0 ? dir : sp == 1 ? dir + "/" : "  " + dir + " "); fs->setFilePrefix(sp == 2 ? " log " : "log"); fs->setFileMaxSize(limit); fs->setLevel(LOG_LEVEL_TRACE);
       if (small) { AsyncSink::Config cfg; cfg.buff_size = 64; cfg.buff_min_num = 1; cfg.buff_max_num = 3; cfg.interval = 100; fs->setConfig(cfg); }
       if (sync) fs->setFileSyncEnable(true);
       fs->enable();
       bool split = false; size_t files = 0; std::string all; const char *stage = ""; bool bad = false;
-      auto log_one = [&](int k, bool expected) { char t[32]; snprintf(t, sizeof t, "rec-%d-pad", k); static char tb[8][32]; char *st = tb[k & 7]; strcpy(st, t);
-        LogPrintfFunc("mod", "fn", "f.cpp", k, LOG_LEVEL_INFO, 0, st);
+      auto log_one = [&](int k, bool expected) { char t[32]; snprintf(t, sizeof t, "rec-%d-pad", k);
+        LogPrintfFunc("mod", "fn", "f.cpp", k, LOG_LEVEL_INFO, 0, t);
         if (expected) want += line_head(LOG_LEVEL_INFO, vsec, "mod") + "fn() " + t + " -- f.cpp:" + std::to_string(k) + "\n";
         if (pace) { usleep(150000); if (pace == 2) vsec++; } };
-      const int first = life == 1 ? (nrec + 1) / 2 : nrec;
+      const bool cyc = life == 1 || life == 3; const int first = cyc ? (nrec + 1) / 2 : nrec;
       for (int k = 0; k < first; k++) log_one(k, true);
-      if (life == 1) {
+      if (cyc) {
         fs->disable();                   // everything logged before must be on disk now
         all = read_files(dir, split, files);
         if (split || all != want) { bad = true; stage = "(first-enabled-period-of-a-sink-that-is-re-enabled-later)"; }
-        else { { int p = pace; pace = 0; log_one(7, false); pace = p; }          // while disabled: must never reach the disk, not even after the re-enable
+        else { { int p = pace; pace = 0; log_one(99, false); pace = p; }          // while disabled: must never reach the disk, not even after the re-enable
           if (pace == 2) vsec++;
-          fs->enable(); for (int k = first; k < nrec; k++) log_one(k, true); fs->disable(); stage = "(after-disable,enable-of-the-same-sink)"; }
+          if (life == 3) { want1 = want; want.clear(); fs->setFilePath(dir2); fs->setFileSyncEnable(!sync); }
+          fs->enable(); for (int k = first; k < nrec; k++) log_one(k, true); fs->disable(); stage = life == 3 ? "(after-disable,setFilePath,enable-of-the-same-sink)" : "(after-disable,enable-of-the-same-sink)"; }
       } else if (life == 0) fs->disable();                      // everything logged before must be on disk now
       else { fs.reset(); stage = "(sink-destroyed-while-enabled)"; }
-      if (!bad) all = read_files(dir, split, files);
+      if (!bad) { all = read_files(life == 3 ? dir2 : dir, split, files);
+        if (life == 3 && !split && all == want) { bool sp1; size_t f1; std::string a1 = read_files(dir, sp1, f1); if (sp1 || a1 != want1) { all = a1; want = want1; split = sp1; stage = "(first-directory-changed-after-setFilePath-to-another-one)"; } } }
       N++;
       if (pass == 0 && nrec == 1 && pace == 0 && v == 0) recsz = all.size();
       if (split) printf("@VIOL sig=file-sink-record-split-across-files%s :: %s\n", stage, desc);
       else if (all != want) printf("@VIOL sig=file-sink-records-lost-duplicated-or-reordered-on-disk-after-disable%s :: %s files=%zu %s\n", stage, desc, files, first_diff(all, want).c_str());
       if (N % 60 == 1) printf("@SAMPLE %s => %zu files, %zu bytes\n", desc, files, all.size());
-      fs.reset(); rm_dir(dir);
+      fs.reset(); rm_tree(base); rm_tree(base + "_second");
     }
   }
+  // long names through the file sink: module of 64, function of 255, file name of 200 characters (behind a 1500-character directory part), 3 records, roll-over after each
+  { static std::string lmod(64, 'M'), lfn(255, 'f'), lfile = std::string(1500, 'd') + "/" + std::string(196, 'F') + ".cpp";
+    std::string dir = work + "/flong"; rm_tree(dir); vsec = BASE_SEC; std::string want; hx::set_current("file sink, long module/function/file names");
+    { AsyncFileSink fs; fs.setFilePath(dir); fs.setFilePrefix("log"); fs.setFileMaxSize(1); fs.setLevel(LOG_LEVEL_TRACE); fs.enable();
+      for (int k = 0; k < 3; k++) { LogPrintfFunc(lmod.c_str(), lfn.c_str(), lfile.c_str(), k, LOG_LEVEL_WARN, 0, "t"); want += line_head(LOG_LEVEL_WARN, vsec, lmod.c_str()) + lfn + "() t -- " + lfile.substr(1501) + ":" + std::to_string(k) + "\n"; }
+      fs.disable(); }
+    bool split; size_t files; std::string all = read_files(dir, split, files); N++;
+    if (split || all != want) printf("@VIOL sig=file-sink-record-with-long-names-altered :: module 64, function 255, file 200 chars files=%zu %s\n", files, first_diff(all, want).c_str());
+    rm_tree(dir); }
   D = N; return 0;
 }
 
@@ -195,14 +228,14 @@ static int sweep_file(const std::string &work) {
 // of each kind that lives through the whole history; every log call is judged against the threshold in force at that moment.
 enum FK { F_SETDEF, F_SETMOD, F_UNSET, F_LOG };
 struct FOp { int k, a, b; };
-static int sweep_filterseq(size_t depth) {
-  static const int LV[3] = {1, 4, 6}; static const int LOGLV[4] = {0, 2, 5, 7}; static const char *MOD[2] = {"A", "B"};
-  hx::Explorer<FOp> ex; ex.name = "filter-histories"; ex.deadline_s = hx::deadline_from_env(300);
+static int sweep_filterseq(size_t depth, int part, int nparts, size_t async_max) {
+  static const int LV[3] = {1, 4, 6}; static const int LOGLV[4] = {0, 2, 5, 7}; static const char *MOD[2] = {"A", "AB"};     // one name is a proper prefix of the other: thresholds match whole names only
+  hx::Explorer<FOp> ex; ex.name = "filter-histories"; ex.deadline_s = hx::deadline_from_env(300); ex.part = part; ex.nparts = nparts;
   ex.show = [](const FOp &o) { char b[48]; switch (o.k) { case F_SETDEF: snprintf(b, 48, "setLevel(%d)", o.a); break; case F_SETMOD: snprintf(b, 48, "setLevel(%s,%d)", MOD[o.b], o.a); break; case F_UNSET: snprintf(b, 48, "unsetLevel(%s)", MOD[o.b]); break; default: snprintf(b, 48, "log(%s,level%d)", MOD[o.b], o.a); } return std::string(b); };
   ex.menu = [&](const std::vector<FOp> &) { std::vector<FOp> m; for (int l : LV) m.push_back({F_SETDEF, l, 0}); for (int mo = 0; mo < 2; mo++) { for (int l : LV) m.push_back({F_SETMOD, l, mo}); m.push_back({F_UNSET, 0, mo}); for (int l : LOGLV) m.push_back({F_LOG, l, mo}); } return m; };
   ex.run = [&](const std::vector<FOp> &h, std::string &viol) {
     SyncRec s; AsyncRec a; AsyncSink::Config cfg; cfg.buff_size = 256; cfg.buff_min_num = 1; cfg.buff_max_num = 2; cfg.interval = 100; a.setConfig(cfg);
-    const bool with_async = h.size() <= 3;     // the async sink (a thread per evaluation) only on short histories; filtering is base-class code shared by both kinds
+    const bool with_async = !h.empty() && h.back().k == F_LOG && h.size() <= async_max;     // the async sink (a thread per evaluation) runs on every history of up to async_max ops that ENDS with a log call: a history ending with another op shows the async sink nothing its prefix did not
     s.enable(); if (with_async) a.enable(); int def = LOG_LEVEL_MAX, mod[2] = {-1, -1}; size_t want_total = 0; std::string want_async;
     for (auto &o : h) { if (!viol.empty()) break;
       switch (o.k) {
@@ -220,54 +253,91 @@ static int sweep_filterseq(size_t depth) {
     // Hidden implementation state (e.g. a threshold cache) may depend on recent calls, so the last three ops are part of the
     // state key: two histories are merged only if they agree on the thresholds in force AND on their last three operations.
     std::string tail; for (size_t i = h.size() > 3 ? h.size() - 3 : 0; i < h.size(); i++) { char t[24]; snprintf(t, sizeof t, "%d.%d.%d,", h[i].k, h[i].a, h[i].b); tail += t; }
-    char c[160]; snprintf(c, sizeof c, "def%d A%d B%d|impl def%d n%zu|tail %s", def, mod[0], mod[1], s.default_level_, s.modules_level_.size(), tail.c_str()); return std::string(c); };
+    char c[160]; snprintf(c, sizeof c, "def%d A%d B%d|impl def%d n%zu|tail %s", def, mod[0], mod[1], VF_GET(default_level_, s, -99), VF_SIZE(modules_level_, s, (size_t)0), tail.c_str()); return std::string(c); };
   ex.check_replay_determinism = false; ex.explore(depth); return 0;
 }
 
-// life-cycle histories (engine H): BFS over enable(k) / disable(k) / setLevel(k, l) / log(level) / clock tick on TWO long-lived sinks
-// (k = a synchronous recorder and an AsyncSink on the real pipe with 64-byte buffers) that are registered, removed and registered again in
-// every order and carry DIFFERENT thresholds. Reference model per sink: enabled bit, threshold, number of enabled periods so far.
-// Oracle (decided by the model only): a log call adds exactly one whole record to the synchronous sink iff that sink is enabled and the
-// level passes ITS threshold (checked at once, with every field incl. the time of the call); the asynchronous sink's output must equal,
-// byte for byte, the whole lines of the records that passed while IT was enabled - compared whenever disable() of that sink returns
-// ("everything logged before disable is delivered when disable returns") and at the end (nothing logged while disabled may turn up later).
-enum LK { LC_EN, LC_DIS, LC_SET, LC_LOG, LC_TICK };
+// life-cycle histories (engine H): BFS over operation histories on long-lived sinks that are registered, removed and registered again in every
+// order: a synchronous recorder and an AsyncSink on the real pipe with 64-byte buffers (Sink::enable/disable), a RAW channel registered directly
+// through the public C interface LogAddPrintfFunc / LogRemovePrintfFunc, and the built-in stdout output LogOutput_Enable / LogOutput_Disable.
+//   alphabet 0 (thresholds and clock): enable(k) / disable(k) / setLevel(k, {2,6}) / log({1,4,7}) / clock+1s on the two Sink objects, which carry DIFFERENT thresholds;
+//   alphabet 1 (registration): enable(k) / disable(k) / log(4) / add-raw / remove-raw(live id | stale or never issued id | id 0) / LogOutput_Enable / LogOutput_Disable -
+//     i.e. also UNMATCHED and DUPLICATE removals (disable of a sink that is not enabled, removal of an id that is not registered, LogOutput_Disable without or
+//     after Enable), each followed by logging with any number of sinks enabled.
+// Reference model per sink: enabled bit, threshold, number of enabled periods so far. Oracle (decided by the model only): a log call adds exactly one whole
+// record to a synchronous sink / raw channel iff it is registered and the level passes ITS threshold (checked at once, every field incl. the time of the call);
+// the asynchronous sink's output must equal, byte for byte, the whole lines of the records that passed while IT was enabled - compared whenever disable() of
+// that sink returns and at the end; the built-in output's captured stdout must equal the lines of the records logged while it was enabled.
+// Every history is followed by a fixed epilogue: everything is disabled, one call is logged (nobody may receive it), then a fresh raw channel is the ONLY
+// registered one and one call is logged (it must receive exactly that record) - the registry must be consistent again whatever the history did.
+enum LK { LC_EN, LC_DIS, LC_SET, LC_LOG, LC_TICK, LC_RAWADD, LC_RAWREM, LC_OUTEN, LC_OUTDIS };
 struct LOp { int k, s, a; };
-static int sweep_lifecycle(size_t depth, int part, int nparts) {
+static void raw_channel(const LogContent *c, void *ptr) { SyncRec *r = static_cast<SyncRec *>(ptr); r->onLogFrontEnd(c); }      // a bare LogPrintfFuncType: no threshold of its own
+static int sweep_lifecycle(size_t depth, int part, int nparts, int alphabet) {
   static const char *SN[2] = {"sync", "async"};
-  hx::Explorer<LOp> ex; ex.name = "life-cycle-histories"; ex.deadline_s = hx::deadline_from_env(300); ex.part = part; ex.nparts = nparts;
-  ex.show = [](const LOp &o) { char b[48]; switch (o.k) { case LC_EN: snprintf(b, 48, "enable(%s)", SN[o.s]); break; case LC_DIS: snprintf(b, 48, "disable(%s)", SN[o.s]); break; case LC_SET: snprintf(b, 48, o.s ? "setLevel(%s,\"\",%d)" : "setLevel(%s,%d)", SN[o.s], o.a); break; case LC_LOG: snprintf(b, 48, "log(level%d)", o.a); break; default: snprintf(b, 48, "clock+1s"); } return std::string(b); };
-  ex.menu = [&](const std::vector<LOp> &) { std::vector<LOp> m; for (int k = 0; k < 2; k++) m.push_back({LC_EN, k, 0}); for (int l : {1, 4, 7}) m.push_back({LC_LOG, 0, l}); for (int k = 0; k < 2; k++) m.push_back({LC_DIS, k, 0});
-    for (int k = 0; k < 2; k++) for (int l : {2, 6}) m.push_back({LC_SET, k, l}); m.push_back({LC_TICK, 0, 0}); return m; };
+  hx::Explorer<LOp> ex; ex.name = alphabet ? "registration-histories" : "life-cycle-histories"; ex.deadline_s = hx::deadline_from_env(300); ex.part = part; ex.nparts = nparts;
+  ex.show = [](const LOp &o) { char b[64]; switch (o.k) { case LC_EN: snprintf(b, 64, "enable(%s)", SN[o.s]); break; case LC_DIS: snprintf(b, 64, "disable(%s)", SN[o.s]); break; case LC_SET: snprintf(b, 64, o.s ? "setLevel(%s,\"\",%d)" : "setLevel(%s,%d)", SN[o.s], o.a); break; case LC_LOG: snprintf(b, 64, "log(level%d)", o.a); break; case LC_TICK: snprintf(b, 64, "clock+1s"); break;
+      case LC_RAWADD: snprintf(b, 64, "raw=LogAddPrintfFunc()"); break; case LC_RAWREM: snprintf(b, 64, "LogRemovePrintfFunc(%s)", o.a == 0 ? "raw-if-registered-else-stale-id" : o.a == 1 ? "stale-or-never-issued-id" : "0"); break; case LC_OUTEN: snprintf(b, 64, "LogOutput_Enable()"); break; default: snprintf(b, 64, "LogOutput_Disable()"); } return std::string(b); };
+  ex.menu = [&](const std::vector<LOp> &) { std::vector<LOp> m; for (int k = 0; k < 2; k++) m.push_back({LC_EN, k, 0});
+    if (alphabet == 0) { for (int l : {1, 4, 7}) m.push_back({LC_LOG, 0, l}); for (int k = 0; k < 2; k++) m.push_back({LC_DIS, k, 0}); for (int k = 0; k < 2; k++) for (int l : {2, 6}) m.push_back({LC_SET, k, l}); m.push_back({LC_TICK, 0, 0}); }
+    else { m.push_back({LC_LOG, 0, 4}); for (int k = 0; k < 2; k++) m.push_back({LC_DIS, k, 0}); m.push_back({LC_RAWADD, 0, 0}); for (int w = 0; w < 3; w++) m.push_back({LC_RAWREM, 0, w}); m.push_back({LC_OUTEN, 0, 0}); m.push_back({LC_OUTDIS, 0, 0}); }
+    return m; };
+  static bool poisoned = false; static int cap_fd = -1;
   ex.run = [&](const std::vector<LOp> &h, std::string &viol) {
+    if (poisoned) return std::string("<not evaluated: the process-global channel registry was left inconsistent by an earlier history>");
     vsec = BASE_SEC;
-    SyncRec s; AsyncRec a; AsyncSink::Config cfg; cfg.buff_size = 64; cfg.buff_min_num = 1; cfg.buff_max_num = 3; cfg.interval = 100; a.setConfig(cfg);
-    Sink *K[2] = {&s, &a}; bool en[2] = {false, false}; int thr[2] = {LOG_LEVEL_MAX, LOG_LEVEL_MAX}, cyc[2] = {0, 0}, pend_a = 0; std::vector<int> order; std::string want_a; size_t nlog = 0;
+    SyncRec s, raw; AsyncRec a; AsyncSink::Config cfg; cfg.buff_size = 64; cfg.buff_min_num = 1; cfg.buff_max_num = 3; cfg.interval = 100; a.setConfig(cfg);
+    Sink *K[2] = {&s, &a}; bool en[2] = {false, false}; int thr[2] = {LOG_LEVEL_MAX, LOG_LEVEL_MAX}, cyc[2] = {0, 0}, pend_a = 0; std::vector<int> order; std::string want_a, want_out; size_t nlog = 0;
+    bool raw_live = false, out_en = false; uint32_t raw_id = 0, stale_id = 0x7ffffff0u; int raw_cyc = 0, out_cyc = 0, stray = 0;
+    bool capture = false; for (auto &o : h) if (o.k == LC_OUTEN) capture = true;
+    int saved = -1; if (capture) { if (cap_fd < 0) cap_fd = (int)syscall(SYS_memfd_create, "c09-stdout", 0); fflush(stdout); saved = dup(1); if (ftruncate(cap_fd, 0)) {} lseek(cap_fd, 0, SEEK_SET); dup2(cap_fd, 1); }
     auto period = [&](int k) { return std::string("(enabled-period-") + (cyc[k] >= 2 ? "2-or-later" : "1") + ")"; };
-    auto check_async = [&](const char *when) { if (a.out == want_a) return; std::string d = first_diff(a.out, want_a); viol = "lifecycle-async-sink-" + d.substr(0, d.find(' ')) + "-" + when + period(1) + " " + d; };
+    auto after_stray = [&]() { return std::string(stray ? "(after-a-removal-of-something-not-registered)" : ""); };
+    auto check_async = [&](const char *when) { if (a.out == want_a) return; std::string d = first_diff(a.out, want_a); viol = "lifecycle-async-sink-" + d.substr(0, d.find(' ')) + "-" + when + period(1) + after_stray() + " " + d; };
+    static char texts[32][16];
+    auto rec_ok = [&](const Rec &r, int level, const char *t, int line) { return r.level == level && r.module == "mod" && r.func == "fn" && r.file == "f.cpp" && r.line == line && r.text == t && !r.trunc && r.sec == (uint32_t)vsec && r.usec == 42 && r.tid == my_tid(); };
     for (auto &o : h) { if (!viol.empty()) break;
       switch (o.k) {
         case LC_EN: K[o.s]->enable(); if (!en[o.s]) { en[o.s] = true; cyc[o.s]++; order.push_back(o.s); if (o.s == 1) pend_a = 0; } break;
-        case LC_DIS: K[o.s]->disable(); if (en[o.s]) { en[o.s] = false; order.erase(std::find(order.begin(), order.end(), o.s)); if (o.s == 1) check_async("when-disable-returned"); } break;
+        case LC_DIS: K[o.s]->disable(); if (en[o.s]) { en[o.s] = false; order.erase(std::find(order.begin(), order.end(), o.s)); if (o.s == 1) check_async("when-disable-returned"); } else stray++; break;
         case LC_SET: if (o.s == 0) s.setLevel(o.a); else a.setLevel("", o.a); thr[o.s] = o.a; break;
         case LC_TICK: vsec++; break;
-        default: { static char texts[32][16]; char *t = texts[nlog % 32]; snprintf(t, 16, "r%zu", nlog); int line = 10 + (int)nlog; size_t before = s.recs.size();
+        case LC_RAWADD: if (!raw_live) { raw_id = LogAddPrintfFunc(raw_channel, &raw); raw_live = true; raw_cyc++; order.push_back(2); } break;
+        case LC_RAWREM: if (o.a == 0 && raw_live) { LogRemovePrintfFunc(raw_id); stale_id = raw_id; raw_live = false; order.erase(std::find(order.begin(), order.end(), 2)); }
+                        else { LogRemovePrintfFunc(o.a == 2 ? 0u : stale_id); stray++; } break;
+        case LC_OUTEN: LogOutput_Enable(); if (!out_en) { out_en = true; out_cyc++; order.push_back(3); } break;
+        case LC_OUTDIS: LogOutput_Disable(); if (out_en) { out_en = false; order.erase(std::find(order.begin(), order.end(), 3)); } else stray++; break;
+        default: { char *t = texts[nlog % 32]; snprintf(t, 16, "r%zu", nlog); int line = 10 + (int)nlog; size_t before = s.recs.size(), rbefore = raw.recs.size();
           if (nlog % 2) LogPrintfFunc("mod", "fn", "dir/f.cpp", line, o.a, 1, "r%d", (int)nlog); else LogPrintfFunc("mod", "fn", "dir/f.cpp", line, o.a, 0, t);
-          bool ws = en[0] && o.a <= thr[0], wa = en[1] && o.a <= thr[1]; size_t got = s.recs.size() - before;
-          if (got != (ws ? 1u : 0u)) viol = (ws ? (got ? "lifecycle-sync-sink-record-duplicated" : "lifecycle-sync-sink-record-missing") + period(0) : std::string("lifecycle-sync-sink-got-a-record-") + (en[0] ? "below-its-own-threshold" : "while-disabled")) + " level=" + std::to_string(o.a);
-          else if (ws) { const Rec &r = s.recs.back(); if (r.level != o.a || r.module != "mod" || r.func != "fn" || r.file != "f.cpp" || r.line != line || r.text != t || r.trunc || r.sec != (uint32_t)vsec || r.usec != 42 || r.tid != my_tid()) viol = "lifecycle-sync-sink-record-field-corrupted" + period(0); }
+          bool ws = en[0] && o.a <= thr[0], wa = en[1] && o.a <= thr[1]; size_t got = s.recs.size() - before, rgot = raw.recs.size() - rbefore;
+          if (got != (ws ? 1u : 0u)) viol = (ws ? (got ? "lifecycle-sync-sink-record-duplicated" : "lifecycle-sync-sink-record-missing") + period(0) + after_stray() : std::string("lifecycle-sync-sink-got-a-record-") + (en[0] ? "below-its-own-threshold" : "while-disabled")) + " level=" + std::to_string(o.a);
+          else if (ws && !rec_ok(s.recs.back(), o.a, t, line)) viol = "lifecycle-sync-sink-record-field-corrupted" + period(0);
+          else if (rgot != (raw_live ? 1u : 0u)) viol = (raw_live ? std::string(rgot ? "raw-channel-record-duplicated" : "raw-channel-record-missing") + after_stray() : std::string("raw-channel-got-a-record-after-LogRemovePrintfFunc")) + " level=" + std::to_string(o.a);
+          else if (raw_live && !rec_ok(raw.recs.back(), o.a, t, line)) viol = "raw-channel-record-field-corrupted";
           if (wa) { want_a += line_head(o.a, vsec, "mod") + "fn() " + t + " -- f.cpp:" + std::to_string(line) + "\n"; pend_a++; }
+          if (out_en) want_out += std::string("\033[") + COLOR_CODE[o.a] + "m" + line_head(o.a, vsec, "mod") + "fn() " + t + " -- f.cpp:" + std::to_string(line) + "\033[0m\n";
           nlog++; } break; } }
-    // canonical state: model (enabled, threshold, life-cycle phase per sink, registration order, clock, records pending in the async period) +
-    // the implementation's main-thread-owned fields (read BEFORE the final disable; back-end-owned fields would race) + the last two ops
-    // (hidden state such as a callback lost by cleanup or a cache filled by the latest call must not be merged away).
-    std::string tail; for (size_t i = h.size() > 2 ? h.size() - 2 : 0; i < h.size(); i++) { char t[24]; snprintf(t, sizeof t, "%d.%d.%d,", h[i].k, h[i].s, h[i].a); tail += t; }
+    // canonical state: model (enabled, threshold, life-cycle phase per sink / channel, registration order, clock, records pending in the async period, whether a stray
+    // removal happened) + the implementation's main-thread-owned fields (read through probes BEFORE the final disable; back-end-owned fields would race) + the last
+    // two ops (three if a probed member no longer exists): hidden state such as a callback lost by cleanup or a cache filled by the latest call must not be merged away.
+    const size_t ntail = vf_any_missing() ? 3 : 2; std::string tail; for (size_t i = h.size() > ntail ? h.size() - ntail : 0; i < h.size(); i++) { char t[24]; snprintf(t, sizeof t, "%d.%d.%d,", h[i].k, h[i].s, h[i].a); tail += t; }
     std::string ord; for (int k : order) ord += (char)('0' + k);
-    char c[320]; snprintf(c, sizeof c, "S e%d t%d c%d|impl id%d def%d n%zu||A e%d t%d c%d pend%d|impl id%d def%d n%zu inited%d||order %s idlt%d|tick%lld|tail %s", (int)en[0], thr[0], std::min(cyc[0], 2), (int)(s.output_id_ != 0), s.default_level_, s.modules_level_.size(),
-             (int)en[1], thr[1], std::min(cyc[1], 2), std::min(pend_a, 2), (int)(a.output_id_ != 0), a.default_level_, a.modules_level_.size(), (int)a.is_pipe_inited_, ord.c_str(), (int)(s.output_id_ < a.output_id_), vsec - BASE_SEC, tail.c_str());
-    s.disable(); a.disable();
+    const uint32_t sid = VF_GET(output_id_, s, 0u), aid = VF_GET(output_id_, a, 0u);
+    char c[400]; snprintf(c, sizeof c, "S e%d t%d c%d|impl id%d def%d n%zu||A e%d t%d c%d pend%d|impl id%d def%d n%zu inited%d||raw e%d c%d|out e%d c%d|stray%d|order %s idlt%d|tick%lld|tail %s", (int)en[0], thr[0], std::min(cyc[0], 2), (int)(sid != 0), VF_GET(default_level_, s, -99), VF_SIZE(modules_level_, s, (size_t)0),
+             (int)en[1], thr[1], std::min(cyc[1], 2), std::min(pend_a, 2), (int)(aid != 0), VF_GET(default_level_, a, -99), VF_SIZE(modules_level_, a, (size_t)0), VF_GET(is_pipe_inited_, a, -1), (int)raw_live, std::min(raw_cyc, 2), (int)out_en, std::min(out_cyc, 2), std::min(stray, 2), ord.c_str(), (int)(sid < aid), vsec - BASE_SEC, tail.c_str());
+    s.disable(); a.disable(); if (raw_live) LogRemovePrintfFunc(raw_id); if (out_en) LogOutput_Disable();      // only matched removals here: unmatched ones are ops of the history, never hidden in the harness
     if (viol.empty()) check_async(en[1] ? "when-the-final-disable-returned" : "at-the-end-of-the-history");
-    if (viol.empty() && (s.output_id_ != 0 || a.output_id_ != 0)) viol = "lifecycle-harness-internal: sink still registered after disable";
+    // epilogue (see above): nobody registered -> nobody receives; then a fresh raw channel is the only one -> it receives exactly one whole record
+    std::string epi; { size_t b0 = s.recs.size(), r0 = raw.recs.size(); std::string a0 = a.out;
+      LogPrintfFunc("mod", "fn", "dir/f.cpp", 98, LOG_LEVEL_INFO, 0, "epilogue-nobody");
+      if (s.recs.size() != b0 || raw.recs.size() != r0 || a.out != a0) epi = "a-sink-still-receives-records-after-everything-was-disabled";
+      SyncRec fresh; uint32_t id = LogAddPrintfFunc(raw_channel, &fresh); LogPrintfFunc("mod", "fn", "dir/f.cpp", 99, LOG_LEVEL_INFO, 0, "epilogue-only-one"); LogRemovePrintfFunc(id);
+      if (epi.empty() && fresh.recs.size() != 1) epi = fresh.recs.empty() ? "channel-registry-inconsistent-after-the-history:the-only-registered-channel-gets-no-record" : "channel-registry-inconsistent-after-the-history:the-only-registered-channel-gets-the-record-more-than-once";
+      else if (epi.empty() && !rec_ok(fresh.recs[0], LOG_LEVEL_INFO, "epilogue-only-one", 99)) epi = "channel-registry-inconsistent-after-the-history:record-field-corrupted";
+      if (epi.empty() && (s.recs.size() != b0 || raw.recs.size() != r0 || a.out != a0)) epi = "a-sink-still-receives-records-after-everything-was-disabled"; }
+    if (capture) { fflush(stdout); dup2(saved, 1); close(saved); std::string got; char buf[4096]; off_t off = 0; ssize_t n; while ((n = pread(cap_fd, buf, sizeof buf, off)) > 0) { got.append(buf, (size_t)n); off += n; }
+      if (viol.empty() && got != want_out) { std::string d = first_diff(got, want_out); viol = "builtin-stdout-output-" + d.substr(0, d.find(' ')) + after_stray() + " " + d; } }
+    if (!epi.empty()) { poisoned = true; printf("@CAP %s: the process-global channel registry is inconsistent after a history; the remaining histories of this process are not evaluated\n", ex.name.c_str()); if (viol.empty()) viol = epi + (stray ? " (the history removed something that was not registered)" : ""); }
     return std::string(c); };
   ex.check_replay_determinism = false; ex.explore(depth); return 0;
 }
@@ -278,7 +348,7 @@ static int sweep_lifecycle(size_t depth, int part, int nparts) {
 #include <tbox/log/async_stdout_sink.h>
 static int sweep_stdout(const std::string &work) {
   std::string cap = work + "/stdout_capture.txt"; long tid = syscall(SYS_gettid);
-  char ts[32]; { time_t t = vsec; struct tm tm; localtime_r(&t, &tm); strftime(ts, sizeof ts, "%F %H:%M:%S", &tm); }
+  std::string ts_s = ts_str(vsec); const char *ts = ts_s.c_str();
   for (int kind = 0; kind < 2; kind++) for (int color = 0; color < 2; color++) for (int lv = 0; lv < LOG_LEVEL_MAX; lv++) for (size_t max : {4ul, 100ul}) for (size_t L : {0ul, 1ul, 4ul, 5ul, 9ul}) for (int with_func = 0; with_func < 2; with_func++) {
     LogSetMaxLength(max); std::string text(L, 'x'); for (size_t i = 0; i < L; i++) text[i] = (char)('a' + i);
     char desc[128]; snprintf(desc, sizeof desc, "%s-stdout-sink color=%d level=%d max=%zu len=%zu func=%d", kind ? "async" : "sync", color, lv, max, L, with_func); hx::set_current(desc);
@@ -289,12 +359,22 @@ static int sweep_stdout(const std::string &work) {
     dup2(saved, 1); close(saved);
     std::ifstream in(cap); std::stringstream buf; buf << in.rdbuf(); std::string got = buf.str(); N++;
     size_t el = std::min(L, max); bool tr = L > max;
-    char head[160]; snprintf(head, sizeof head, "%c %s.%06u %ld modQ ", LOG_LEVEL_LEVEL_CODE[lv], ts, 42u, tid);
-    std::string want = (color ? std::string("\033[") + LOG_LEVEL_COLOR_CODE[lv] + "m" : std::string()) + head + (with_func ? "fnQ() " : "") + (el ? text.substr(0, el) + " " : std::string()) + (tr && (el || !kind) ? "(TRUNCATED) " : "") + "-- fileQ.cpp:77" + (color ? "\033[0m\n" : "\n");
+    char head[160]; snprintf(head, sizeof head, "%c %s.%06u %ld modQ ", LEVEL_CODE[lv], ts, 42u, tid);
+    std::string want = (color ? std::string("\033[") + COLOR_CODE[lv] + "m" : std::string()) + head + (with_func ? "fnQ() " : "") + (el ? text.substr(0, el) + " " : std::string()) + (tr && (el || !kind) ? "(TRUNCATED) " : "") + "-- fileQ.cpp:77" + (color ? "\033[0m\n" : "\n");
     if (got != want) printf("@VIOL sig=%s-stdout-sink-line-differs-from-the-documented-record-format :: %s got=[%s] want=[%s]\n", kind ? "async" : "sync", desc, got.substr(0, 120).c_str(), want.substr(0, 120).c_str());
     if (N % 150 == 1) printf("@SAMPLE %s => %zu bytes on stdout\n", desc, got.size());
   }
   LogSetMaxLength(100 << 10);
+  // long names (a 64-character module, a 255-character function name as template/lambda __func__ can be, a 200-character file name behind a 1500-character directory)
+  for (int kind = 0; kind < 2; kind++) { static std::string lmod(64, 'M'), lfn(255, 'f'), lfile = std::string(1500, 'd') + "/" + std::string(196, 'F') + ".cpp";
+    hx::set_current(kind ? "async-stdout-sink long names" : "sync-stdout-sink long names");
+    fflush(stdout); int saved = dup(1); int fd = open(cap.c_str(), O_CREAT | O_TRUNC | O_WRONLY, 0600); dup2(fd, 1); close(fd);
+    { SyncStdoutSink ss; AsyncStdoutSink as; Sink *k = kind ? (Sink *)&as : (Sink *)&ss; k->setLevel(LOG_LEVEL_TRACE); k->enable();
+      LogPrintfFunc(lmod.c_str(), lfn.c_str(), lfile.c_str(), 77, LOG_LEVEL_NOTICE, 0, "t"); k->disable(); fflush(stdout); }
+    dup2(saved, 1); close(saved);
+    std::ifstream in(cap); std::stringstream buf; buf << in.rdbuf(); std::string got = buf.str(); N++;
+    std::string want = line_head(LOG_LEVEL_NOTICE, vsec, lmod.c_str()) + lfn + "() t -- " + lfile.substr(1501) + ":77\n";
+    if (got != want) printf("@VIOL sig=%s-stdout-sink-record-with-long-names-altered :: module 64, function 255, file 200 chars %s\n", kind ? "async" : "sync", first_diff(got, want).c_str()); }
   // ONE long-lived sink of each kind across changes of second (same second twice, +1 s, +1 h, clock stepped back) and a
   // disable / enable cycle on the same object; the whole captured stream must equal the records logged while enabled, each with the
   // time of ITS call. fd 1 is captured for the whole sequence.
@@ -308,7 +388,7 @@ static int sweep_stdout(const std::string &work) {
       for (const Step &st : STEPS) { vsec = BASE_SEC + st.dsec; i++;
         if (st.act == 1) { k->disable(); on = false; } else if (st.act == 2) { k->enable(); on = true; }
         else { static char tx[32][8]; snprintf(tx[i], 8, "s%d", i); int lv = i % LOG_LEVEL_MAX; LogPrintfFunc("modQ", "fnQ", "dir/fileQ.cpp", i, lv, 0, tx[i]);
-          if (on) want += (color ? std::string("\033[") + LOG_LEVEL_COLOR_CODE[lv] + "m" : std::string()) + line_head(lv, vsec, "modQ") + "fnQ() " + tx[i] + " -- fileQ.cpp:" + std::to_string(i) + (color ? "\033[0m\n" : "\n"); } }
+          if (on) want += (color ? std::string("\033[") + COLOR_CODE[lv] + "m" : std::string()) + line_head(lv, vsec, "modQ") + "fnQ() " + tx[i] + " -- fileQ.cpp:" + std::to_string(i) + (color ? "\033[0m\n" : "\n"); } }
       fflush(stdout); }
     dup2(saved, 1); close(saved); vsec = BASE_SEC;
     std::ifstream in(cap); std::stringstream buf; buf << in.rdbuf(); std::string got = buf.str(); N++;
@@ -330,9 +410,10 @@ static int sweep_stdout(const std::string &work) {
 }
 
 int main(int argc, char **argv) {
+  setenv("TZ", "VFT-05:30", 1); tzset();       // see ts_str(): local time = UTC + 5 h 30 min, computed by the oracle without localtime_r
   std::string what = argc > 1 ? argv[1] : "len"; hx::install_crash_reporter("C09-crash");
-  if (what == "filterseq") return sweep_filterseq(argc > 2 ? atoi(argv[2]) : 4);
-  if (what == "lifecycle") return sweep_lifecycle(argc > 2 ? atoi(argv[2]) : 4, argc > 4 ? atoi(argv[3]) : 0, argc > 4 ? atoi(argv[4]) : 1);
+  if (what == "filterseq") return sweep_filterseq(argc > 2 ? atoi(argv[2]) : 4, argc > 4 ? atoi(argv[3]) : 0, argc > 4 ? atoi(argv[4]) : 1, argc > 5 ? atoi(argv[5]) : 4);
+  if (what == "lifecycle") return sweep_lifecycle(argc > 2 ? atoi(argv[2]) : 4, argc > 4 ? atoi(argv[3]) : 0, argc > 4 ? atoi(argv[4]) : 1, argc > 5 ? atoi(argv[5]) : 0);
   if (what == "stdout") { int rc = sweep_stdout(argc > 2 ? argv[2] : "/tmp"); printf("@STAT states=%zu transitions=%zu executions=%zu\n", D, N, N); return rc; }
   int rc = what == "len" ? sweep_len() : what == "filter" ? sweep_filter() : sweep_file(argc > 2 ? argv[2] : "/tmp");
   printf("@STAT states=%zu transitions=%zu executions=%zu\n", D, N, N); return rc;
